@@ -279,6 +279,11 @@ func (k *keyEvaluator) eval(v ssa.Value, env kenv, depth int, busy map[ssa.Value
 		return k.opaque("extract", v)
 	case *ssa.Call:
 		return k.evalCall(x, 0, env, depth, busy)
+	case *ssa.MakeSlice:
+		if l, ok := constInt(x.Len); ok && l == 0 {
+			return lit("") // make([]byte, 0, n)
+		}
+		return k.opaque("make", v)
 	case *ssa.Slice:
 		if x.High != nil {
 			if h, ok := constInt(x.High); ok && h == 0 {
@@ -391,6 +396,15 @@ func (k *keyEvaluator) evalCall(call *ssa.Call, idx int, env kenv, depth int, bu
 		return k.opaque("call "+calleeFullName(call), call)
 	}
 	full := calleeFullName(call)
+	switch full {
+	case "(*bytes.Buffer).Bytes", "(*bytes.Buffer).String", "(*strings.Builder).String":
+		if t, ok := k.builderContents(call, env, depth, busy); ok {
+			return t
+		}
+		return k.opaque("buffer", call)
+	case "strconv.Itoa", "strconv.FormatInt", "strconv.FormatUint":
+		return k.evalArg(cc.Args[0], env, depth, busy)
+	}
 	switch {
 	case full == "fmt.Sprintf":
 		format, ok := constString(cc.Args[0])
@@ -801,4 +815,61 @@ func phiEdgeKnownNil(phi *ssa.Phi, i int) bool {
 		}
 	}
 	return false
+}
+
+// builderContents evaluates buf.Bytes()/String() of a local bytes.Buffer or
+// strings.Builder: the Write* calls on the same variable, which must all
+// dominate the read and be totally ordered by dominance (straight-line use).
+func (k *keyEvaluator) builderContents(read *ssa.Call, env kenv, depth int, busy map[ssa.Value]bool) ([]Tmpl, bool) {
+	recv := read.Common().Args[0]
+	al, ok := recv.(*ssa.Alloc)
+	if !ok {
+		return nil, false
+	}
+	var writes []*ssa.Call
+	for _, r := range realReferrers(al) {
+		call, ok := r.(*ssa.Call)
+		if !ok {
+			if _, isDbg := r.(*ssa.DebugRef); isDbg {
+				continue
+			}
+			return nil, false // address escapes
+		}
+		if call == read {
+			continue
+		}
+		name := calleeFullName(call)
+		switch {
+		case strings.HasSuffix(name, ").Write"), strings.HasSuffix(name, ").WriteString"), strings.HasSuffix(name, ").WriteByte"), strings.HasSuffix(name, ").WriteRune"):
+			if !instrDominates(call, read) {
+				return nil, false
+			}
+			if k.c.inLoop(call.Block()) {
+				return nil, false
+			}
+			writes = append(writes, call)
+		case strings.HasSuffix(name, ").Bytes"), strings.HasSuffix(name, ").String"), strings.HasSuffix(name, ").Len"), strings.HasSuffix(name, ").Grow"):
+		default:
+			return nil, false
+		}
+	}
+	sort.SliceStable(writes, func(i, j int) bool { return instrDominates(writes[i], writes[j]) })
+	for i := 0; i+1 < len(writes); i++ {
+		if !instrDominates(writes[i], writes[i+1]) {
+			return nil, false
+		}
+	}
+	out := lit("")
+	for _, w := range writes {
+		a := w.Common().Args[1]
+		if isIntType(a.Type()) {
+			if ci, ok := constInt(a); ok {
+				out = concat(out, lit(string(rune(ci))))
+				continue
+			}
+			return nil, false
+		}
+		out = concat(out, k.eval(a, env, depth, busy))
+	}
+	return out, true
 }
